@@ -97,7 +97,19 @@ def run(ctx):
     rl = []
     for i in range(60 if ctx.tier == "quick" else 1200):
         s, fs = gen.program(rng, depth=rng.randint(1, 2), fail=False)
-        s = "export const before = {k: [1, 2]};\n" + s[: s.rindex("main()")] + "console.log('body runs');\nexport const result = main();\nexport let counter = 3;\nexport default [result, counter];"
+        extra = []
+        for j in range(rng.randint(1, 3)):
+            kind = rng.choice(["alias", "plain", "let", "later"])
+            if kind == "alias":
+                extra.append("let n%d = %d; export { n%d as count%d }; export function bump%d() { n%d = n%d + 1; return n%d; } n%d = n%d + 10;" % (j, j, j, j, j, j, j, j, j, j))
+            elif kind == "plain":
+                extra.append("let p%d = %d; export { p%d }; export function bumpP%d() { p%d += 2; }" % (j, j, j, j, j))
+            elif kind == "let":
+                extra.append("export let q%d = %d; export const bumpQ%d = () => { q%d = q%d * 2 + 1; };" % (j, j + 1, j, j, j))
+            else:
+                extra.append("export let late%d = 'a'; export const obj%d = {v: [%d]}; late%d = 'b' + late%d; obj%d.v.push(9);" % (j, j, j, j, j, j))
+        s = ("export const before = {k: [1, 2]};\n" + s[: s.rindex("main()")] + "console.log('body runs');\nexport const result = main();\n"
+             + "\n".join(extra) + "\nexport default [result, 3];")
         rl.append(s)
     rgot = common.harness(["roles"], [json.dumps({"src": s}) for s in rl], timeout=600)
     for s, g in zip(rl, rgot):
@@ -105,18 +117,33 @@ def run(ctx):
         outs = g.split("\t")
         if len(outs) != 3:
             ctx.prop_fail("crash: module role run did not finish (%s)" % g[-60:], {"module": s[:800]}); continue
-        def norm(o):
-            head, _, log = o.partition(" L:")
+        def canon(txt):
             try:
-                head = json.dumps(json.loads(head), sort_keys=True)
+                return json.dumps(json.loads(txt), sort_keys=True)
             except ValueError:
-                pass
-            return head + " L:" + log
-        a, b, c_ = (norm(o) for o in outs)
-        if not (a == b == c_):
-            ctx.prop_fail("role: the module behaves differently as entry program / provided dependency / internal source module",
-                          {"module": s[:1000], "entry": a[:300], "dependency": b[:300], "internal": c_[:300]})
-        distinct.add(a)
+                return txt
+        a_head, _, a_log = outs[0].partition(" L:")
+        res = []
+        for o in outs[1:]:
+            head, _, log = o.partition(" L:")
+            first, _, second = head.partition(" AFTER ")
+            res.append((canon(first), canon(second), log))
+        (b1, b2, bl), (c1, c2, cl) = res
+        entry = json.loads(a_head) if a_head.startswith("{") else None
+        if entry is not None:
+            entry = json.dumps({k: v for k, v in entry.items() if v is not None or True}, sort_keys=True)
+        # the entry role exposes functions as null through the host API: compare on the non-function keys
+        def drop_null(txt):
+            try:
+                return json.dumps({k: v for k, v in json.loads(txt).items() if not k.startswith("bump")}, sort_keys=True)
+            except ValueError:
+                return txt
+        if not (b1 == c1 and b2 == c2 and bl == cl):
+            ctx.prop_fail("role: the module behaves differently as provided dependency and as internal source module (values before/after calling its exported functions, console)",
+                          {"module": s[:1200], "dependency": (b1 + " AFTER " + b2)[:400], "internal": (c1 + " AFTER " + c2)[:400]})
+        elif drop_null(a_head) != drop_null(b1) or a_log != bl:
+            ctx.prop_fail("role: the module behaves differently as entry program and as dependency", {"module": s[:1200], "entry": a_head[:400], "dependency": b1[:400]})
+        distinct.add(b1 + b2)
     # ---- known finding witness: a dependency module cannot suspend
     for f in ctx.findings:
         if f.get("kind") == "witness":
